@@ -52,8 +52,14 @@ def gen_cases(seed, count):
         tw = None
         if tool != "skinny-ecb" and rng.random() < 0.8:
             tl = bb if rng.random() < 0.5 else rng.randrange(1, bb + 1)
-            kind = rng.randrange(4)
-            if kind == 0:
+            kind = rng.randrange(5)
+            if kind == 4:
+                # low word of 1/2/4/8 bytes just below its top-bit boundary (7F FF..FF -> 80 00..00) or its wrap
+                w = min(tl, rng.choice([1, 2, 4, 8, 16]))
+                top = rng.choice([0x7F, 0x7F, 0xFF, 0x80])
+                word = (int.from_bytes(bytes([top] + [0x00 if top == 0x80 else 0xFF] * (w - 1)), "big") - rng.randrange(0, 13)) % (1 << (8 * w))
+                tw = bytes(rng.getrandbits(8) for _ in range(tl - w)) + word.to_bytes(w, "big")
+            elif kind == 0:
                 tw = bytes([0xFF] * tl)
             elif kind == 1:
                 k = rng.randrange(1, tl + 1)
